@@ -199,21 +199,27 @@ pub fn gen_script(t: &mut Tape, gates: &Gates, max_len: usize) -> Script {
     let pool: Vec<&str> = pool.iter().map(|x| x.as_str()).collect();
     let n = t.count(1, max_len);
     let mut next_id: i64 = 1;
+    // (version numbers are the client's: mostly consecutive, sometimes with large strides or from far up)
     let mut version: HashMap<String, i64> = HashMap::new();
+    if t.ratio(1, 6) {
+        for u in URIS {
+            version.insert(u.to_string(), *t.pick(&[-1i64, 255, 65_535, 2_000_000_000]));
+        }
+    }
     for _ in 0..n {
         let uri = *t.pick(&uris);
         let kind = t.below(11);
         match kind {
             0 | 1 => {
                 let v = version.entry(uri.to_string()).or_insert(0);
-                *v += 1;
+                *v += *t.pick(&[1i64, 1, 1, 1, 2, 1000, 70_000]);
                 s.messages.push(lsp_did_open(uri, *v, *t.pick(&pool)));
                 s.doc_notifications.push((uri.to_string(), *v));
                 s.kinds.push("didOpen");
             }
             2 | 3 => {
                 let v = version.entry(uri.to_string()).or_insert(0);
-                *v += 1;
+                *v += *t.pick(&[1i64, 1, 1, 1, 2, 1000, 70_000]);
                 let nchanges = match t.below(4) {
                     0 => {
                         if gates.want("DID_CHANGE_WITHOUT_CONTENT_CHANGES") {
